@@ -26,8 +26,8 @@ RULE = ("For each response kind (document of several copy blocks, menu, error pa
         "Non-trivial: failure index strictly inside the response (0 < k < n); distinct = (kind, form, error, k, size).")
 ASSUMPTIONS = [
     "a dead connection is modelled as a client file object whose k-th and all later write()/flush() calls raise the "
-    "error instance; responses produced by a child process writing to the socket directly (scripts, decompressors) "
-    "cannot be interrupted this way and are not enumerated",
+    "error instance; responses produced with the help of a child process (scripts, decompressors) are exercised over a real "
+    "TCP connection whose client closes or resets after 0 / 70000 of 3000000 bytes (mode 'realfd', 32 cases)",
     "implicit closing by reference counting counts as closed: only descriptors that survive the request are reported",
 ]
 
@@ -112,6 +112,13 @@ def _request(kind, form):
 
 
 def enumerate_cases(tier, seed):
+    # responses produced with the help of a child process (decompressor, script), over a real TCP connection whose client
+    # goes away after reading `after` bytes
+    for kind in ("gzdoc", "script"):
+        for form in ("gopher", "gplus", "http", "spartan"):
+            for how in ("close", "reset"):
+                for after in (0, 70000):
+                    yield {"mode": "realfd", "kind": kind, "form": form, "how": how, "after": after}
     for kind in KINDS:
         for form in FORMS:
             for err in ERRORS:
@@ -147,7 +154,124 @@ def _fds():
     return out
 
 
+class _SockW:
+    """the server side of a real TCP connection, as socketserver's unbuffered writer presents it"""
+
+    def __init__(self, sock):
+        self.sock = sock
+        self.closed = False
+
+    def write(self, b):
+        self.sock.sendall(b)
+        return len(b)
+
+    def flush(self):
+        pass
+
+    def writable(self):
+        return True
+
+    def fileno(self):
+        return self.sock.fileno()
+
+    def close(self):
+        self.closed = True
+
+    def getvalue(self):
+        return b""
+
+
+def _check_realfd(case, ctx):
+    import struct
+    import threading
+    kind, form = case["kind"], case["form"]
+    big = "0123456789abcdef" * 64 * 3000  # 3 MB: far more than the socket buffers hold
+    if kind == "gzdoc":
+        spec = [["big.txt.gz", "f", sites.gz_text(big)]]
+        sel = b"/big.txt.gz"
+    else:
+        spec = [["big.sh", "f", "#!/bin/sh\nhead -c 3000000 /dev/zero | tr '\\0' 'x'\necho\n", 0o755]]
+        sel = b"/big.sh"
+    base, root = world.build(spec)
+    lst = socket.socket()
+    conns = []
+    try:
+        cfg = drive.make_config(root, "full", **{"handlers.dir.DirHandler::cachetime": "0"})
+        req = clients.encode(form, sel)
+        lst.bind(("127.0.0.1", 0))
+        lst.listen(1)
+        cli = socket.create_connection(lst.getsockname())
+        srv, _ = lst.accept()
+        conns += [cli, srv]
+        srv.settimeout(20)
+
+        def client():
+            try:
+                got = 0
+                while got < case["after"]:
+                    b = cli.recv(min(65536, case["after"] - got))
+                    if not b:
+                        break
+                    got += len(b)
+                if case["how"] == "reset":
+                    cli.setsockopt(socket.SOL_SOCKET, socket.SO_LINGER, struct.pack("ii", 1, 0))
+                cli.close()
+            except OSError:
+                pass
+        gc.collect()
+        before = _fds()
+        t = threading.Thread(target=client, daemon=True)
+        t.start()
+        if case["after"] == 0:
+            t.join(5)  # the client is gone before the first byte is written
+        r = drive.serve(cfg, req, tls=False, wfile=_SockW(srv))
+        t.join(10)
+        escaped_sig = drive.exc_signature(r.escaped) if r.escaped is not None else None
+        escaped_repr = repr(r.escaped)
+        r.escaped = None
+        del r.handled[:]
+        srv.close()
+        gc.collect()
+        after = _fds()
+        ctx.evaluations += 1
+        ctx.count("real_connection_faults")
+        ctx.nontriv(("realfd", kind, form, case["how"], case["after"]))
+        ctx.label("realfd:" + kind, "form:" + form, "client:" + case["how"])
+        ctx.sample(case, cls="realfd" + kind)
+        tag = "%s:%s" % (kind, clients.FORMS[form][1])
+        if escaped_sig is not None:
+            return [Fail("escaped:%s:%s" % (tag, escaped_sig), "%s/%s over a real connection, client %ss after %d bytes: %s escaped the connection handler" % (
+                kind, form, case["how"], case["after"], escaped_repr))]
+        fails = []
+        own = ("BrokenPipeError", "ConnectionResetError")
+        classes = r.exception_classes()
+        other = [c for c in classes if c not in own]
+        if other:
+            fails.append(Fail("logged-as-other:%s:%s" % (tag, other[0]), "%s/%s over a real connection, client %ss after %d bytes: logged as %s: %r" % (
+                kind, form, case["how"], case["after"], other[0], r.logs[-2:])))
+        rec = [l for l in r.logs if any("EXCEPTION %s:" % c in l for c in own)]
+        if not rec:
+            fails.append(Fail("not-logged:%s" % tag, "%s/%s over a real connection: the client %ss after reading %d of 3000000 bytes and "
+                              "no log record names the connection failure: %r" % (kind, form, case["how"], case["after"], r.logs[-3:])))
+        elif not [l for l in rec if l.startswith(drive.CLIENT[0] + " [")]:
+            fails.append(Fail("log-lacks-context:%s" % tag, "the record lacks the client address: %r" % rec[:2]))
+        leaked = {fd: t_ for fd, t_ in after.items() if fd not in before}
+        if leaked:
+            fails.append(Fail("fd-leak:%s" % kind, "%s/%s over a real connection: descriptors left open: %r" % (kind, form, leaked)))
+        return fails
+    finally:
+        for c in conns:
+            try:
+                c.close()
+            except OSError:
+                pass
+        lst.close()
+        world.rmtree(base)
+
+
 def check_case(case, ctx):
+    if case.get("mode") == "realfd":
+        return _check_realfd(case, ctx)
     kind, form, errname = case["kind"], case["form"], case["err"]
     tls, fam = clients.FORMS[form]
     req = _request(kind, form)
